@@ -313,6 +313,7 @@ static void dispatch(int na, char **a) {
   else if (OP("inv_m4ri")) { NEED(5); setret(a[1], M(a[2]), mzd_inv_m4ri(M(a[2]), M(a[3]), I(a[4]))); }
   else if (OP("invert_naive")) { NEED(5); setret(a[1], M(a[2]), mzd_invert_naive(M(a[2]), M(a[3]), M(a[4]))); }
   else if (OP("trtri_upper")) { NEED(2); mzd_trtri_upper(M(a[1])); }
+  else if (OP("trtri_upper_russian")) { NEED(3); mzd_trtri_upper_russian(M(a[1]), I(a[2])); }
   /* ---------------- C06 / C07 ---------------- */
   else if (OP("solve_left")) { NEED(5); RET(mzd_solve_left(M(a[1]), M(a[2]), I(a[3]), I(a[4]))); }
   else if (OP("pluq_solve_left")) { NEED(8); RET(mzd_pluq_solve_left(M(a[1]), I(a[2]), P(a[3]), P(a[4]), M(a[5]), I(a[6]), I(a[7]))); }
